@@ -14,7 +14,7 @@ def handleLine (line : String) : String :=
     let o := configure ⟨true, gc == "1", gc != "3"⟩ f
     let has (s : Src) := o.igfiles.contains s
     let ex := explicitHonoured o.igfiles
-    let a := s!"gg:{v (has .globalVcs)} ga:{v (has .globalPlain)} pv:{v (has .projectVcs)} pg:{v (has .projectPlain)} gc:{v (has .gitConfigExcludes)} ex:{v ex} pyc:{v o.defaultIgnores} ip:{v o.ignorePatterns} ok:pass keep:{v (!ex)}"
+    let a := s!"gg:{v (has .globalVcs)} ga:{v (has .globalPlain)} pv:{v (has .projectVcs)} pg:{v (has .projectPlain)} gc:{v (has .gitConfigExcludes)} ex:{v ex} pyc:{v o.defaultIgnores} ip:{v o.ignorePatterns} ok:pass keep:{v (!ex)} kpyc:{v (!o.ignorePatterns)}"
     let b := s!"fl:{v (!o.filters)} ok:{v o.filters} ex:ign"
     let c := s!"ff:{v (!o.filters)} ok:{v o.filters}"
     let d := s!"rs:{v (!o.exts)} toml:{v (!o.exts)} brs:{v o.ignorePatterns} ok:{v o.exts}"
@@ -22,7 +22,8 @@ def handleLine (line : String) : String :=
     -- each explicit option alone
     let f1 := s!"rs:{v (!o.exts)} toml:{v (!o.exts)} ok:{v o.exts}"
     let f2 := s!"fl:{v (!o.filters)} ok:{v o.filters}"
-    let f3 := s!"ip:{v o.ignorePatterns} ok:pass"
+    -- `keep.pyc` is ignored by a built-in default (`*.py[co]`) and re-included by `--ignore '!keep.pyc'`, which comes after the defaults
+    let f3 := s!"ip:{v o.ignorePatterns} ok:pass kpyc:{v (!o.ignorePatterns)}"
     -- `keep.gg` is ignored by the global git excludes (`*.gg`) and re-included by the explicit file's `!keep.gg`, which is listed after them
     let f4 := s!"ex:{v ex} ok:pass keep:{v (!ex)}"
     "|".intercalate [a, b, c, d, e, f1, f2, f3, f4]
